@@ -3,21 +3,24 @@ import Libp2pModel.Proofs.C27Term
 # C27 — a published gossipsub message is delivered once to every subscriber
 
 Theorems about the network model `Model/C27.lean`, for EVERY configuration (any number of nodes,
-any forwarding sets, any publish recipients, any `message.source`) and EVERY schedule (any
-interleaving of receptions — a schedule is an arbitrary list of links).
+any forwarding sets, any publish recipients, any `message.source`, any subset of nodes running with
+`validate_messages`) and EVERY schedule: a schedule is an arbitrary list of `Op`s — receptions
+`recv u v` and application verdicts `verdict v Accept|Reject|Ignore` in any interleaving.
 
 * `at_most_once`     each node's application receives the id at most once; the publisher never.
-* `no_echo`          no node sends the message to the peer it first received it from, and no
-                     forwarder sends it to `message.source`; `no_echo_source` extends the latter to
-                     the publisher's own sends under the input condition `specPub cfg = none`.
-* `self_origin_never` consequently the `RejectReason::SelfOrigin` branch of `message_is_valid`
-                     (which penalises the sender) is never taken.
-* `at_least_once`    if `message.source` is absent or the publisher, then in every quiescent
-                     reachable state every node reachable from the publisher in the directed
-                     graph "u forwards to v" has received the message (exactly once).
+* `no_echo`          (temporal, over the chronological history of receptions and sends) no node ever
+                     sends the message to a peer from which it has received it before that send —
+                     first sender and every duplicate sender during the validation window alike;
+                     `no_echo_decomp` is the same statement in "prefix" form.
+* `no_echo_source`   nobody ever sends the message to `message.source`.
+* `self_origin_never` the `RejectReason::SelfOrigin` branch of `message_is_valid` is never taken.
+* `at_least_once`    if `message.source` is absent or the publisher and no application rejected or
+                     ignored the message, then in every quiescent reachable state (nothing in
+                     flight, nothing awaiting a verdict) every node reachable from the publisher in
+                     the directed graph "u forwards to v" has been delivered the message once.
 * `delivered_iff_reach` the set of nodes delivered to at quiescence is schedule independent.
-* `termination` / `quiescence` every schedule has at most `mu` effective receptions and can be
-                     completed to a quiescent state.
+* `termination` / `quiescence` every schedule has at most `mu` effective steps and can be
+                     completed (deliver what is in flight, accept what is held) to quiescence.
 * `exactly_once`     the conjunction, in the form of the property statement;
                      `exactly_once_of_connected_overlay` restates the premise as "the overlay of
                      forwarding sets connects the publisher to every node".
@@ -57,44 +60,88 @@ theorem deliveries_le_one {d : List (Node × Node)} (hn : (d.map Prod.fst).Nodup
 /-- **At most once**: under every schedule each node's application receives the message id at most
 once (while the id is in its duplicate cache — the model never expires it), and the publisher's
 application never receives it. -/
-theorem at_most_once (cfg : Cfg) (sched : List (Node × Node)) :
+theorem at_most_once (cfg : Cfg) (sched : List Op) :
     (∀ v, deliveries (run cfg sched) v ≤ 1) ∧ deliveries (run cfg sched) cfg.pub = 0 := by
   have hi := inv_run cfg sched
   exact ⟨fun v => (deliveries_le_one hi.del_nodup v).1,
     (deliveries_le_one hi.del_nodup cfg.pub).2.1 hi.pub_not_del⟩
 
-/-- one reception never forwards to its propagation source nor to `message.source`
-(the transcribed filter of `forward_msg`) -/
-theorem no_echo_step (cfg : Cfg) (s : State) (l : Node × Node) (r : List Node)
-    (h : (recv cfg s l).2 = .first r) :
-    l.1 ∉ r ∧ ∀ x, cfg.source = some x → x ∉ r := by
-  obtain ⟨u, v⟩ := l
-  rcases recv_cases cfg s u v with ⟨_, e⟩ | ⟨_, _, e⟩ | ⟨_, _, _, e⟩ | ⟨_, _, _, e⟩
-  · rw [e] at h; cases h
-  · rw [e] at h; cases h
-  · rw [e] at h; cases h
-  · rw [e] at h
-    cases h
-    exact ⟨fun h => (mem_recipients.1 h).2.1 rfl, fun x hx h => (mem_recipients.1 h).2.2 hx.symm⟩
+theorem echo_run (cfg : Cfg) (hn : NoSelf cfg) (sched : List Op) :
+    Inv cfg (run cfg sched) ∧ Echo cfg (run cfg sched) :=
+  Machine.invariant_of_step (step cfg) (fun s => Inv cfg s ∧ Echo cfg s)
+    (fun _ op h => ⟨inv_step op h.1, echo_step hn op h.1 h.2⟩) sched (publish cfg)
+    ⟨inv_publish cfg, echo_publish cfg⟩
 
-/-- **No echo**: in every reachable state, no node `v` has ever sent the message to the peer `u` it
-received it from (`(v,u) ∈ delivered` records the propagation source of `v`'s only delivery), and
-no forwarding node has ever sent it to `message.source`. -/
-theorem no_echo (cfg : Cfg) (sched : List (Node × Node)) :
-    (∀ v u, (v, u) ∈ (run cfg sched).delivered → (v, u) ∉ (run cfg sched).sent) ∧
-    (∀ v x, cfg.source = some x → v ≠ cfg.pub → (v, x) ∉ (run cfg sched).sent) := by
-  have hi := inv_run cfg sched
-  refine ⟨?_, ?_⟩
-  · intro v u hd hs
-    rcases hi.sent_src v u hs with ⟨hv, _⟩ | ⟨u', hu', hr⟩
-    · exact hi.pub_not_del (hv ▸ List.mem_map.2 ⟨(v, u), hd, rfl⟩)
-    · have : u' = u := hi.del_unique hu' hd
-      subst this
-      exact (mem_recipients.1 hr).2.1 rfl
-  · intro v x hx hv hs
-    rcases hi.sent_src v x hs with ⟨hv', _⟩ | ⟨u', _, hr⟩
-    · exact hv hv'
-    · exact (mem_recipients.1 hr).2.2 hx.symm
+/-- **No echo** (strengthened, temporal): for every schedule — arbitrary interleaving of first
+receipts, duplicates and validation verdicts — scanning the chronological history of the run, no
+send `v → w` happens after a reception `v ← w`: a node never sends the message to any peer from
+which it has received it before the send, including the senders of duplicates that arrived while
+the message was awaiting the application's verdict. (`NoSelf`: a node is not its own peer.) -/
+theorem no_echo (cfg : Cfg) (hn : NoSelf cfg) (sched : List Op) :
+    noEcho [] (run cfg sched).hist :=
+  (echo_run cfg hn sched).2.ne
+
+/-- the same in prefix form: whenever the history splits around a send `v → w`, the part before
+it contains no reception of `v` from `w` -/
+theorem no_echo_decomp (cfg : Cfg) (hn : NoSelf cfg) (sched : List Op)
+    (pre post : List Ev) (v w : Node)
+    (h : (run cfg sched).hist = pre ++ Ev.sent v w :: post) : Ev.recvd v w ∉ pre := by
+  have hne := no_echo cfg hn sched
+  rw [h, noEcho_append] at hne
+  have h2 := hne.2
+  simp only [noEcho, List.append_nil, List.mem_reverse] at h2
+  intro hmem
+  apply h2.1
+  clear h hne h2
+  induction pre with
+  | nil => cases hmem
+  | cons e pre ih =>
+    rcases List.mem_cons.1 hmem with rfl | hm
+    · simp [rcvdOf]
+    · cases e with
+      | recvd a b => simp only [rcvdOf, List.mem_cons]; exact Or.inr (ih hm)
+      | sent a b => simpa [rcvdOf] using ih hm
+
+/-- every send is accounted for in the history (so `no_echo` speaks about all of them) -/
+theorem sent_in_hist (cfg : Cfg) (sched : List Op) :
+    ∀ a b, (a, b) ∈ (run cfg sched).sent → Ev.sent a b ∈ (run cfg sched).hist := by
+  have := Machine.invariant_of_step (step cfg)
+    (fun s => ∀ a b, (a, b) ∈ s.sent → Ev.sent a b ∈ s.hist)
+    (by
+      intro s op hs
+      cases op with
+      | recv u v =>
+        simp only [step]
+        rcases recv_cases cfg s u v with ⟨_, e⟩ | ⟨_, _, e⟩ | ⟨_, _, _, e⟩ | ⟨_, _, _, _, e⟩ |
+          ⟨_, _, _, e⟩
+        · rw [e]; exact hs
+        · rw [e]; intro a b h; exact List.mem_append_left _ (hs a b h)
+        · rw [e]; intro a b h; exact List.mem_append_left _ (hs a b h)
+        · rw [e]; intro a b h; exact List.mem_append_left _ (hs a b h)
+        · rw [e]; intro a b h
+          rcases List.mem_append.1 h with h | h
+          · exact List.mem_append_left _ (List.mem_append_left _ (hs a b h))
+          · simp only [List.mem_map, Prod.mk.injEq] at h
+            obtain ⟨p, hp, rfl, rfl⟩ := h
+            exact List.mem_append_right _ (List.mem_map.2 ⟨_, hp, rfl⟩)
+      | verdict v a =>
+        simp only [step]
+        rcases verdict_cases cfg s v a with ⟨_, e⟩ | ⟨u, orig, _, _, e⟩ | ⟨u, orig, _, _, e⟩
+        · rw [e]; exact hs
+        · rw [e]; intro a' b h
+          rcases List.mem_append.1 h with h | h
+          · exact List.mem_append_left _ (hs a' b h)
+          · simp only [List.mem_map, Prod.mk.injEq] at h
+            obtain ⟨p, hp, rfl, rfl⟩ := h
+            exact List.mem_append_right _ (List.mem_map.2 ⟨_, hp, rfl⟩)
+        · rw [e]; exact hs)
+    sched (publish cfg)
+    (by
+      intro a b h
+      simp only [publish, List.mem_map, Prod.mk.injEq] at h ⊢
+      obtain ⟨p, hp, rfl, rfl⟩ := h
+      exact ⟨_, hp, rfl⟩)
+  exact this
 
 theorem specPub_none {cfg : Cfg} (h : specPub cfg = none) :
     cfg.pub ∉ cfg.recips ∧ ∀ x, cfg.source = some x → x ∉ cfg.recips := by
@@ -114,7 +161,7 @@ theorem specPub_none {cfg : Cfg} (h : specPub cfg = none) :
 
 /-- when the publisher's own recipient set avoids the source (always true for a signing node:
 source = itself, and a node is not its own peer), nobody ever sends the message to its source -/
-theorem no_echo_source (cfg : Cfg) (hp : specPub cfg = none) (sched : List (Node × Node)) :
+theorem no_echo_source (cfg : Cfg) (hp : specPub cfg = none) (sched : List Op) :
     ∀ v x, cfg.source = some x → (v, x) ∉ (run cfg sched).sent := by
   intro v x hx hs
   have hi := inv_run cfg sched
@@ -123,78 +170,111 @@ theorem no_echo_source (cfg : Cfg) (hp : specPub cfg = none) (sched : List (Node
   · exact (mem_recipients.1 hr).2.2 hx.symm
 
 /-- the `SelfOrigin` rejection (a scoring penalty for the sender) is never triggered -/
-theorem self_origin_never (cfg : Cfg) (hp : specPub cfg = none) (sched : List (Node × Node)) :
+theorem self_origin_never (cfg : Cfg) (hp : specPub cfg = none) (sched : List Op) :
     Out.selfOrigin ∉ outs cfg sched := by
   intro hmem
-  have := Machine.outputs_of_step (recv cfg) (Inv cfg) (fun o => o ≠ Out.selfOrigin)
-    (fun _ l h => inv_recv l h)
+  have := Machine.outputs_of_step (step cfg) (Inv cfg) (fun o => o ≠ Out.selfOrigin)
+    (fun _ op h => inv_step op h)
     (by
-      intro s l hi
-      obtain ⟨u, v⟩ := l
-      rcases recv_cases cfg s u v with ⟨_, e⟩ | ⟨hf, ⟨hso, _⟩, e⟩ | ⟨_, _, _, e⟩ | ⟨_, _, _, e⟩
-      · rw [e]; intro h; cases h
-      · exfalso
-        rcases hi.sent_src u v (hi.flight_sent _ hf) with ⟨_, hr⟩ | ⟨u', _, hr⟩
-        · exact (specPub_none hp).2 v hso hr
-        · exact (mem_recipients.1 hr).2.2 hso.symm
-      · rw [e]; intro h; cases h
-      · rw [e]; intro h; cases h)
+      intro s op hi
+      cases op with
+      | recv u v =>
+        simp only [step]
+        rcases recv_cases cfg s u v with ⟨_, e⟩ | ⟨hf, ⟨hso, _⟩, e⟩ | ⟨_, _, _, e⟩ |
+          ⟨_, _, _, _, e⟩ | ⟨_, _, _, e⟩
+        · rw [e]; intro h; cases h
+        · exfalso
+          rcases hi.sent_src u v (hi.flight_sent _ hf) with ⟨_, hr⟩ | ⟨u', _, hr⟩
+          · exact (specPub_none hp).2 v hso hr
+          · exact (mem_recipients.1 hr).2.2 hso.symm
+        · rw [e]; intro h; cases h
+        · rw [e]; intro h; cases h
+        · rw [e]; intro h; cases h
+      | verdict v a =>
+        simp only [step]
+        rcases verdict_cases cfg s v a with ⟨_, e⟩ | ⟨u, orig, _, _, e⟩ | ⟨u, orig, _, _, e⟩
+        · rw [e]; intro h; cases h
+        · rw [e]; intro h; cases h
+        · rw [e]; intro h; cases h)
     sched (publish cfg) (inv_publish cfg) _ hmem
   exact this rfl
 
-theorem clo_run (cfg : Cfg) (hsrc : sourceOk cfg = true) (sched : List (Node × Node)) :
+theorem clo_run (cfg : Cfg) (hsrc : sourceOk cfg = true) (sched : List Op) :
     Clo cfg (run cfg sched) := by
-  have := Machine.invariant_of_step (recv cfg) (fun s => Inv cfg s ∧ Clo cfg s)
-    (fun _ l h => ⟨inv_recv l h.1, clo_recv hsrc l h.1 h.2⟩) sched (publish cfg)
-    ⟨inv_publish cfg, clo_publish cfg⟩
+  have := Machine.invariant_of_step (step cfg) (fun s => Inv cfg s ∧ Clo cfg s)
+    (by
+      intro s op h
+      refine ⟨inv_step op h.1, ?_⟩
+      cases op with
+      | recv u v => exact clo_recv hsrc (u, v) h.1 h.2
+      | verdict v a => exact clo_verdict hsrc v a h.1 h.2)
+    sched (publish cfg) ⟨inv_publish cfg, clo_publish cfg⟩
   exact this.2
 
-/-- **At least once**: if `message.source` is absent or the publisher itself, then in every
-quiescent reachable state (no copy in flight), every node reachable from the publisher in the
-directed graph "u forwards to v" other than the publisher has been delivered the message —
-exactly once. No fairness assumption beyond "the state is quiescent". -/
-theorem at_least_once (cfg : Cfg) (hsrc : sourceOk cfg = true) (sched : List (Node × Node))
-    (hq : (run cfg sched).flight = []) (v : Node) (hr : Reach cfg v) (hv : v ≠ cfg.pub) :
+/-- **At least once**: if `message.source` is absent or the publisher itself and no application
+rejected / ignored the message, then in every quiescent reachable state (no copy in flight, no
+message awaiting a verdict), every node reachable from the publisher in the directed graph
+"u forwards to v" other than the publisher has been delivered the message — exactly once. -/
+theorem at_least_once (cfg : Cfg) (hsrc : sourceOk cfg = true) (sched : List Op)
+    (hq : (run cfg sched).quiescent) (hd : (run cfg sched).dropped = [])
+    (v : Node) (hr : Reach cfg v) (hv : v ≠ cfg.pub) :
     deliveries (run cfg sched) v = 1 := by
   have hi := inv_run cfg sched
-  have hseen := reach_seen_of_quiescent (clo_run cfg hsrc sched) hi hq hr
+  have hseen := reach_seen_of_quiescent (clo_run cfg hsrc sched) hi hq.1 hq.2 hd hr
   rcases hi.seen_del v hseen with h | h
   · exact absurd h hv
   · exact (deliveries_le_one hi.del_nodup v).2.2 h
 
 /-- only reachable nodes ever see the message -/
-theorem seen_reach (cfg : Cfg) (sched : List (Node × Node)) :
+theorem seen_reach (cfg : Cfg) (sched : List Op) :
     ∀ a ∈ (run cfg sched).seen, Reach cfg a := by
-  have := Machine.invariant_of_step (recv cfg) (fun s => Inv cfg s ∧ ∀ a ∈ s.seen, Reach cfg a)
+  have := Machine.invariant_of_step (step cfg) (fun s => Inv cfg s ∧ ∀ a ∈ s.seen, Reach cfg a)
     (by
-      intro s l ⟨hi, hr⟩
-      refine ⟨inv_recv l hi, ?_⟩
-      obtain ⟨u, v⟩ := l
-      rcases recv_cases cfg s u v with ⟨_, e⟩ | ⟨_, _, e⟩ | ⟨_, _, _, e⟩ | ⟨hf, _, _, e⟩
-      · rw [e]; exact hr
-      · rw [e]; exact hr
-      · rw [e]; exact hr
-      · rw [e]
-        intro a ha
-        rcases List.mem_cons.1 ha with rfl | ha
-        · have hu := hr u (hi.flight_seen hf)
-          refine Reach.step hu ?_
-          unfold Edge edges
-          rcases hi.sent_src u a (hi.flight_sent _ hf) with ⟨hup, hb⟩ | ⟨w, hw, hb⟩
-          · rw [if_pos hup]; exact hb
-          · have hup : u ≠ cfg.pub :=
-              fun h => hi.pub_not_del (h ▸ List.mem_map.2 ⟨(u, w), hw, rfl⟩)
-            rw [if_neg hup]; exact (mem_recipients.1 hb).1
-        · exact hr a ha)
+      intro s op ⟨hi, hr⟩
+      refine ⟨inv_step op hi, ?_⟩
+      have hnew : ∀ u v, (u, v) ∈ s.flight → Reach cfg v := by
+        intro u v hf
+        have hu := hr u (hi.flight_seen hf)
+        refine Reach.step hu ?_
+        unfold Edge edges
+        rcases hi.sent_src u v (hi.flight_sent _ hf) with ⟨hup, hb⟩ | ⟨w, hw, hb⟩
+        · rw [if_pos hup]; exact hb
+        · have hup : u ≠ cfg.pub :=
+            fun h => hi.pub_not_del (h ▸ List.mem_map.2 ⟨(u, w), hw, rfl⟩)
+          rw [if_neg hup]; exact (mem_recipients.1 hb).1
+      cases op with
+      | recv u v =>
+        simp only [step]
+        rcases recv_cases cfg s u v with ⟨_, e⟩ | ⟨_, _, e⟩ | ⟨_, _, _, e⟩ | ⟨hf, _, _, _, e⟩ |
+          ⟨hf, _, _, e⟩
+        · rw [e]; exact hr
+        · rw [e]; exact hr
+        · rw [e]; exact hr
+        · rw [e]
+          intro a ha
+          rcases List.mem_cons.1 ha with rfl | ha
+          · exact hnew u a hf
+          · exact hr a ha
+        · rw [e]
+          intro a ha
+          rcases List.mem_cons.1 ha with rfl | ha
+          · exact hnew u a hf
+          · exact hr a ha
+      | verdict v a =>
+        simp only [step]
+        rcases verdict_cases cfg s v a with ⟨_, e⟩ | ⟨u, orig, _, _, e⟩ | ⟨u, orig, _, _, e⟩
+        · rw [e]; exact hr
+        · rw [e]; exact hr
+        · rw [e]; exact hr)
     sched (publish cfg)
     ⟨inv_publish cfg, by intro a ha; simp [publish] at ha; subst ha; exact Reach.pub⟩
   exact this.2
 
-/-- **Schedule independence**: at quiescence the set of nodes the message was delivered to is
-exactly the set of nodes reachable from the publisher (minus the publisher), whatever the
-interleaving was. -/
-theorem delivered_iff_reach (cfg : Cfg) (hsrc : sourceOk cfg = true) (sched : List (Node × Node))
-    (hq : (run cfg sched).flight = []) (v : Node) :
+/-- **Schedule independence**: at quiescence (and when nobody rejected the message) the set of
+nodes the message was delivered to is exactly the set of nodes reachable from the publisher (minus
+the publisher), whatever the interleaving of receptions and verdicts was. -/
+theorem delivered_iff_reach (cfg : Cfg) (hsrc : sourceOk cfg = true) (sched : List Op)
+    (hq : (run cfg sched).quiescent) (hd : (run cfg sched).dropped = []) (v : Node) :
     deliveries (run cfg sched) v = 1 ↔ (Reach cfg v ∧ v ≠ cfg.pub) := by
   have hi := inv_run cfg sched
   constructor
@@ -207,45 +287,52 @@ theorem delivered_iff_reach (cfg : Cfg) (hsrc : sourceOk cfg = true) (sched : Li
       omega
     exact ⟨seen_reach cfg sched v (hi.del_seen v hmem), fun hv => hi.pub_not_del (hv ▸ hmem)⟩
   · intro ⟨hr, hv⟩
-    exact at_least_once cfg hsrc sched hq v hr hv
+    exact at_least_once cfg hsrc sched hq hd v hr hv
 
-/-- **Termination measure**: under every schedule the number of effective receptions is bounded by
-`mu` of the state right after `publish` = `|recipients| + Σ_{v unseen} (|fwd v| + 1)`. -/
-theorem termination (cfg : Cfg) (hw : WF cfg) (sched : List (Node × Node)) :
+/-- **Termination measure**: under every schedule the number of effective steps (receptions of a
+copy in flight, verdicts on a held message) is bounded by `mu` of the state right after `publish`
+= `|recipients| + Σ_{v unseen} (|fwd v| + 1)`. -/
+theorem termination (cfg : Cfg) (hw : WF cfg) (sched : List Op) :
     effCount (outs cfg sched) ≤ mu cfg (publish cfg) := by
   have := eff_bound hw sched (publish cfg) (inv_publish cfg)
   unfold outs
   omega
 
-/-- every reachable state can be completed to a quiescent one in at most `mu` further
-receptions (so the hypothesis of `at_least_once` is satisfiable after any prefix) -/
-theorem quiescence (cfg : Cfg) (hw : WF cfg) (sched : List (Node × Node)) :
-    ∃ more, more.length ≤ mu cfg (publish cfg) ∧ (run cfg (sched ++ more)).flight = [] := by
+/-- every reachable state can be completed to a quiescent one in at most `mu` further steps
+without rejecting anything (so the hypotheses of `at_least_once` are satisfiable after any
+prefix) -/
+theorem quiescence (cfg : Cfg) (hw : WF cfg) (sched : List Op) :
+    ∃ more, more.length ≤ mu cfg (publish cfg) ∧ (run cfg (sched ++ more)).quiescent ∧
+      (run cfg (sched ++ more)).dropped = (run cfg sched).dropped := by
   have hb := eff_bound hw sched (publish cfg) (inv_publish cfg)
-  obtain ⟨more, hl, hq⟩ := quiescence_reachable hw (mu cfg (publish cfg)) (run cfg sched)
+  obtain ⟨more, hl, hq, hq2, hq3⟩ := quiescence_reachable hw (mu cfg (publish cfg)) (run cfg sched)
     (inv_run cfg sched) (by unfold run; omega)
-  refine ⟨more, hl, ?_⟩
-  unfold run Machine.exec at *
-  rw [List.foldl_append]
-  exact hq
+  refine ⟨more, hl, ?_, ?_⟩
+  · unfold State.quiescent run Machine.exec at *
+    rw [List.foldl_append]
+    exact ⟨hq, hq2⟩
+  · unfold run Machine.exec at *
+    rw [List.foldl_append]
+    exact hq3
 
 /-- the property statement on the model: in a network where every node is reachable from the
-publisher through forwarding sets, once no copy is in flight every node other than the publisher
-got the message exactly once, the publisher did not, and nothing was echoed to a propagation
-source or to the message's source. -/
+publisher through forwarding sets, once nothing is in flight or awaiting a verdict (and nobody
+rejected the message) every node other than the publisher got the message exactly once, the
+publisher did not, no node ever sent it to a peer it had received it from before, and nobody sent
+it to the message's source. -/
 def full_statement : Prop :=
-  ∀ (cfg : Cfg) (sched : List (Node × Node)),
-    sourceOk cfg = true → specPub cfg = none → (∀ v ∈ cfg.nodes, Reach cfg v) →
-    (run cfg sched).flight = [] →
+  ∀ (cfg : Cfg) (sched : List Op),
+    sourceOk cfg = true → specPub cfg = none → NoSelf cfg → (∀ v ∈ cfg.nodes, Reach cfg v) →
+    (run cfg sched).quiescent → (run cfg sched).dropped = [] →
     (∀ v ∈ cfg.nodes, v ≠ cfg.pub → deliveries (run cfg sched) v = 1) ∧
     deliveries (run cfg sched) cfg.pub = 0 ∧
-    (∀ v u, (v, u) ∈ (run cfg sched).delivered → (v, u) ∉ (run cfg sched).sent) ∧
+    noEcho [] (run cfg sched).hist ∧
     (∀ v x, cfg.source = some x → (v, x) ∉ (run cfg sched).sent)
 
 theorem exactly_once : full_statement := by
-  intro cfg sched hsrc hp hreach hq
-  exact ⟨fun v hv hne => at_least_once cfg hsrc sched hq v (hreach v hv) hne,
-    (at_most_once cfg sched).2, (no_echo cfg sched).1, no_echo_source cfg hp sched⟩
+  intro cfg sched hsrc hp hn hreach hq hd
+  exact ⟨fun v hv hne => at_least_once cfg hsrc sched hq hd v (hreach v hv) hne,
+    (at_most_once cfg sched).2, no_echo cfg hn sched, no_echo_source cfg hp sched⟩
 
 /-- reachable from the publisher along forwarding sets only (the mesh overlay) -/
 inductive MeshReach (cfg : Cfg) : Node → Prop
@@ -267,52 +354,57 @@ theorem reach_of_meshReach (cfg : Cfg) (hpub : ∀ b ∈ cfg.fwd cfg.pub, b ∈ 
     · rw [if_neg hap]; exact hb
 
 /-- **The property in overlay terms**: if the overlay of forwarding sets connects the publisher to
-every node and the publisher sends at least to its own forwarding set, then once no copy is in
-flight every other node got the message exactly once and the publisher did not. -/
-theorem exactly_once_of_connected_overlay (cfg : Cfg) (sched : List (Node × Node))
+every node and the publisher sends at least to its own forwarding set, then at quiescence every
+other node got the message exactly once and the publisher did not. -/
+theorem exactly_once_of_connected_overlay (cfg : Cfg) (sched : List Op)
     (hsrc : sourceOk cfg = true) (hpub : ∀ b ∈ cfg.fwd cfg.pub, b ∈ cfg.recips)
-    (hconn : ∀ v ∈ cfg.nodes, MeshReach cfg v) (hq : (run cfg sched).flight = []) :
+    (hconn : ∀ v ∈ cfg.nodes, MeshReach cfg v) (hq : (run cfg sched).quiescent)
+    (hd : (run cfg sched).dropped = []) :
     (∀ v ∈ cfg.nodes, v ≠ cfg.pub → deliveries (run cfg sched) v = 1) ∧
     deliveries (run cfg sched) cfg.pub = 0 :=
   ⟨fun v hv hne =>
-      at_least_once cfg hsrc sched hq v (reach_of_meshReach cfg hpub (hconn v hv)) hne,
+      at_least_once cfg hsrc sched hq hd v (reach_of_meshReach cfg hpub (hconn v hv)) hne,
     (at_most_once cfg sched).2⟩
 
 /-- **Spec link**: the executable Spec evaluated on the implementation's outputs accepts every
-trace of the model: the per-reception monitor under every schedule, and the quiescence clause in
-every quiescent state. -/
-theorem spec_accepts_model (cfg : Cfg) (sched : List (Node × Node)) :
-    monitor cfg (trace cfg (publish cfg) sched) [] = none ∧
-    ((run cfg sched).flight = [] →
-      specQuiet cfg ((run cfg sched).delivered.map Prod.fst) = none) := by
-  refine ⟨by simpa [publish] using monitor_model sched (publish cfg) (inv_publish cfg), ?_⟩
+trace of the model: the per-step monitor (at-most-once, never to the publisher, no send to any
+peer a copy was received from, never to the source) under every schedule, and the quiescence
+clause in every quiescent state. -/
+theorem spec_accepts_model (cfg : Cfg) (hn : NoSelf cfg) (sched : List Op) :
+    monitor cfg (trace cfg (publish cfg) sched) {} = none ∧
+    ((run cfg sched).quiescent →
+      specQuiet cfg ((run cfg sched).dropped.isEmpty)
+        ((run cfg sched).delivered.map Prod.fst) = none) := by
+  refine ⟨?_, ?_⟩
+  · have := monitor_model hn sched (publish cfg) (inv_publish cfg) (echo_publish cfg)
+    simpa [monOf, publish, rcvdOf_sends] using this
   intro hq
   have hi := inv_run cfg sched
   unfold specQuiet
   rw [if_neg (by simpa using (nodupB_iff _).2 hi.del_nodup),
     if_neg (by simpa using hi.pub_not_del)]
-  by_cases hpre : (premise cfg && sourceOk cfg) = true
-  · have hp : premise cfg = true := by
-      cases h : premise cfg <;> simp [h] at hpre ⊢
-    have hs : sourceOk cfg = true := by
-      cases h : sourceOk cfg <;> simp [h] at hpre ⊢
+  by_cases hpre : (premise cfg && sourceOk cfg && (run cfg sched).dropped.isEmpty) = true
+  · simp only [Bool.and_eq_true] at hpre
+    obtain ⟨⟨hp, hs⟩, hdr⟩ := hpre
+    have hd : (run cfg sched).dropped = [] := by simpa using hdr
     have hall : (cfg.nodes.all fun v =>
         v == cfg.pub || ((run cfg sched).delivered.map Prod.fst).contains v) = true := by
       rw [List.all_eq_true]
       intro v hv
       by_cases hvp : v = cfg.pub
       · simp [hvp]
-      · have h1 := at_least_once cfg hs sched hq v (premise_reach hp v hv) hvp
+      · have h1 := at_least_once cfg hs sched hq hd v (premise_reach hp v hv) hvp
         have hmem : v ∈ (run cfg sched).delivered.map Prod.fst := by
           apply Classical.byContradiction
-          intro hn
-          have := (deliveries_le_one hi.del_nodup v).2.1 hn
+          intro hn'
+          have := (deliveries_le_one hi.del_nodup v).2.1 hn'
           unfold deliveries at h1
           omega
         simp only [Bool.or_eq_true, List.contains_iff_mem]
         exact Or.inr hmem
     rw [hall]; simp
-  · have : (premise cfg && sourceOk cfg) = false := by simpa using hpre
+  · have : (premise cfg && sourceOk cfg && (run cfg sched).dropped.isEmpty) = false := by
+      simpa using hpre
     rw [this]; simp
 
 /-! ## non-vacuity: a 5-node network (ring 0-1-2-3-4-0 plus chord 1-3), publisher 0 -/
@@ -334,23 +426,38 @@ example : premise exCfg = true := by decide
 example : sourceOk exCfg = true := by decide
 example : specPub exCfg = none := by decide
 /-- a schedule with duplicates (3 receives from 1 first, then again from 4 and 2) reaching quiescence -/
-def exSched : List (Node × Node) :=
-  [(0, 1), (1, 3), (0, 4), (4, 3), (1, 2), (3, 2), (3, 4), (2, 3)]
-example : (run exCfg exSched).flight = [] := by decide
+def exSched : List Op :=
+  [.recv 0 1, .recv 1 3, .recv 0 4, .recv 4 3, .recv 1 2, .recv 3 2, .recv 3 4, .recv 2 3]
+example : (run exCfg exSched).flight = [] ∧ (run exCfg exSched).held = [] := by decide
 example : outs exCfg exSched =
     [.first [2, 3], .first [2, 4], .first [3], .dup, .first [3], .dup, .dup, .dup] := by decide
 example : ∀ v ∈ exCfg.nodes, v ≠ exCfg.pub → deliveries (run exCfg exSched) v = 1 := by decide
 /-- the anonymous-source variant: copies do travel back to the publisher and are ignored there -/
-example : outs { exCfg with source := none } [(0, 1), (1, 0)] = [.first [2, 3], .noflight] := by
-  decide
-example : outs { exCfg with source := none } [(0, 4), (4, 3), (3, 1), (1, 0)]
+example : outs { exCfg with source := none } [.recv 0 4, .recv 4 3, .recv 3 1, .recv 1 0]
     = [.first [3], .first [1, 2], .first [0, 2], .dup] := by decide
+
+/-- validation mode: node 3 holds the copy from 1, receives duplicates from 4 and 2 while its
+application is deciding, and on Accept forwards to NOBODY (1, 2 and 4 all sent it a copy); with
+`originating_peers` lost (the seed mutation) it would forward to 2 and 4. -/
+def exVal : Cfg := { exCfg with validate := fun v => v == 3 }
+def exValSched : List Op :=
+  [.recv 0 1, .recv 1 3, .recv 0 4, .recv 4 3, .recv 1 2, .recv 2 3, .verdict 3 .accept]
+example : outs exVal exValSched =
+    [.first [2, 3], .hold, .first [3], .dup, .first [3], .dup, .forwarded []] := by decide
+example : recipientsV exVal 3 1 [] = [2, 4] := by decide
+example : (run exVal exValSched).flight = [] ∧ (run exVal exValSched).held = [] := by decide
+/-- an early Accept forwards to the peers that have not sent a copy yet; Reject forwards nothing -/
+example : outs exVal [.recv 0 1, .recv 1 3, .verdict 3 .accept, .verdict 3 .accept]
+    = [.first [2, 3], .hold, .forwarded [2, 4], .noheld] := by decide
+example : outs exVal [.recv 0 1, .recv 1 3, .verdict 3 .reject]
+    = [.first [2, 3], .hold, .dropped] := by decide
 
 end C27
 
 #print axioms C27.at_most_once
-#print axioms C27.no_echo_step
 #print axioms C27.no_echo
+#print axioms C27.no_echo_decomp
+#print axioms C27.sent_in_hist
 #print axioms C27.no_echo_source
 #print axioms C27.self_origin_never
 #print axioms C27.at_least_once
